@@ -132,7 +132,11 @@ def apply_op(case, a, b):
         return getattr(a, op)(b, builtins=case.get('builtins', False))
     if op == 'bool':
         src = case['src']
-        if src == 'plain': return bool(a)
+        if src == 'plain':
+            via = case.get('via')
+            if via == 'invert': a = ~(~a)
+            elif via == 'tvl_and': a = a.tvl_and(a)
+            return bool(a)
         if src == 'eq': return bool(a == b)
         if src == 'ne': return bool(a != b)
         return bool(ORD[src](a, b))
@@ -239,7 +243,7 @@ def expect(case):
         if op == 'bool' and case['src'] == 'plain':
             a = case['a']
             t3 = opd_t3(a)
-            if a['shape'] or t3[0] == M:
+            if a['shape'] or t3[0] == M:      # any shape other than (), even (1,) or (1,1): any()/all() is required
                 return 'ValueError'
             return t3[0] == T
         a, b = case['a'], case['b']
@@ -326,7 +330,10 @@ def request(case):
     if op in ('ord', 'tvl_ord'):
         return ['c14', op, case['sym'], n_sx(case['a']), n_sx(case['b'])]
     if op == 'bool':
-        return None      # composed below from the comparison's observation
+        if case['src'] == 'plain':
+            # (~~a and a.tvl_and(a) are observably a, so the same model request serves the `via` variants)
+            return ['c14', 'bool', False, False, b_sx(case['a'])]
+        return None      # truth value of a comparison: judged by the oracle (all()/any() of the comparison)
     return None
 
 
@@ -415,6 +422,16 @@ def gen_cases(rng, tier):
                 cases.append(mk({'op': 'red', 'red': red, 'a': o, 'axis': None}))
             cases.append(mk({'op': 'bool', 'src': 'plain', 'a': o}))
             cases.append(mk({'op': 'not', 'form': 'invert', 'a': o}))
+    # truth testing of objects that are NOT comparison results: allowed for shape () only — also not for shapes
+    # made of length-1 axes, zero-size objects, or results of ~ & | tvl_and on them
+    for shape in ([1], [1, 1], [2], [0], [1, 0], [1, 1, 1]):
+        n = int(np.prod(shape, dtype=int))
+        for t3s in itertools.product([T, F, M], repeat=min(n, 2)):
+            t3s = list(t3s)[:n] if n else []
+            for o in bool_operands(t3s, shape, rng):
+                cases.append(mk({'op': 'bool', 'src': 'plain', 'a': o}))
+                cases.append(mk({'op': 'bool', 'src': 'plain', 'a': o, 'via': 'invert'}))
+                cases.append(mk({'op': 'bool', 'src': 'plain', 'a': o, 'via': 'tvl_and'}))
     # 2. element operators: exhaustive on pairs of single elements with every representation, then broadcast pairs
     for x in (T, F, M):
         for y in (T, F, M):
